@@ -32,14 +32,13 @@ Section Source.
 Variable fparse : list Z -> option Z.
 Variable crank : val -> val -> option comparison.
 
-(* C12 parse_total: for every source the outcome is a value, a diagnostic about a token of
-   the stream, or the panic of the Set collator (and then the collator did panic on some
-   pair): never out of fuel, never a push-back overflow, never reading behind EOF *)
+(* C12 parse_total: for every source the outcome is a value or a diagnostic about a token of
+   the stream (since fix 37 also when the Set constructor's collator panics: the diagnostic
+   names the type token): never out of fuel, never a push-back overflow, never reading behind EOF *)
 Theorem parse_total src :
   match parse_source fparse crank src with
   | PValue _ => True
   | PSyntax t => In t (lex src)
-  | PRuntime RCollator => exists a b, crank a b = None
   | _ => False
   end.
 Proof.
@@ -48,14 +47,12 @@ Proof.
   - intros t. apply lex_valid_types.
 Qed.
 
-(* the statement asked for: with a collator that does not panic, a value or a diagnostic *)
+(* the statement asked for, for EVERY collator: a value or a diagnostic *)
 Theorem parse_total_strict src :
-  (forall a b, crank a b <> None) ->
   is_value (parse_source fparse crank src) = true \/ is_syntax (parse_source fparse crank src) = true.
 Proof.
-  intro Hc. pose proof (parse_total src) as S.
-  destruct (parse_source fparse crank src) as [v|t|k|]; simpl; auto.
-  destruct k; try contradiction. destruct S as (a & b & E). exfalso. exact (Hc a b E).
+  pose proof (parse_total src) as S.
+  destruct (parse_source fparse crank src) as [v|t|k|]; simpl; auto; contradiction.
 Qed.
 
 Theorem pushback_bound src : parse_source fparse crank src <> PRuntime RPushOverflow.
